@@ -340,14 +340,19 @@ class JSONPointer:
         """Return _True_ if this pointer points to a child of _other_."""
         return (
             len(other.parts) < len(self.parts)
-            and self.parts[: len(other.parts)] == other.parts
+            and self._tokens()[: len(other.parts)] == other._tokens()
         )
 
+    def _tokens(self) -> Tuple[str, ...]:
+        # RFC 6901 reference tokens are strings. `parts` can hold an index as
+        # an int or a str, depending on how the pointer was constructed.
+        return tuple(str(p) for p in self.parts)
+
     def __eq__(self, other: object) -> bool:
-        return isinstance(other, JSONPointer) and self.parts == other.parts
+        return isinstance(other, JSONPointer) and self._tokens() == other._tokens()
 
     def __hash__(self) -> int:
-        return hash(self.parts)
+        return hash(self._tokens())
 
     def __repr__(self) -> str:
         return f"JSONPointer({self._s!r})"
